@@ -40,17 +40,21 @@ MIN_PER_RULE = {'C03.1': 5, 'C03.2': 3, 'C03.3': 2, 'C03.4': 3, 'C03.5': 3,
 
 
 def _is_up_edge(nz, edge, recv_txt):
-    """edge establishes <recv>.state is/== State.up"""
+    """edge establishes <recv>.state is/== State.up; ``recv_txt`` is the
+    receiver's text or a collection of texts that denote it (the name and
+    what the name stands for)."""
+    names = [recv_txt] if isinstance(recv_txt, str) else list(recv_txt)
     for atom in nz.facts_of_edge(edge):
         key = atom.key
-        if key[0] == 'is' and key[3] and \
-                sorted(key[1:3]) == sorted(['State.up',
-                                            '%s.state' % recv_txt]):
-            return True
-        if key[0] == 'cmp' and key[1] == '==' and sorted(
-                t for t, _c in key[2]) == sorted(
-                    ['State.up', '%s.state' % recv_txt]):
-            return True
+        for name in names:
+            if key[0] == 'is' and key[3] and \
+                    sorted(key[1:3]) == sorted(['State.up',
+                                                '%s.state' % name]):
+                return True
+            if key[0] == 'cmp' and key[1] == '==' and sorted(
+                    t for t, _c in key[2]) == sorted(
+                        ['State.up', '%s.state' % name]):
+                return True
     return False
 
 
@@ -334,7 +338,7 @@ def _not_up(ctx, nz):
         if n in body]
     ctx.require(sites, 'direct put on a victim server in the placement loop')
     for node, call in sites:
-        rcv = K.recv_text(call)
+        rcv = {K.recv_text(call), K.rtxt(loop.func, K.recv(call))}
         inner = K.enclosing_for(graph, node)
         ok = K.guarded_by(graph, node,
                           lambda e, r=rcv: _is_up_edge(nz, e, r),
@@ -506,7 +510,7 @@ def _renewal(ctx, nz, server, loop):
                          if loop.removes(c)][0]
                 srv_txt = K.recv_text(rcall)
                 # records made between the failed test and the removal
-                rec_server = rec_expiry = None
+                rec_server, rec_expiry = set(), set()
                 for node in graph.nodes:
                     if node.kind != 'stmt' or not isinstance(node.ast,
                                                              ast.Assign):
@@ -520,23 +524,25 @@ def _renewal(ctx, nz, server, loop):
                                         lambda e, n=node: e.src is n,
                                         start=test):
                         continue
-                    val = N.txt(node.ast.value)
-                    if val == srv_txt:
-                        rec_server = N.txt(tgt)
-                    elif val == '%s.placement_expiry' % var:
-                        rec_expiry = N.txt(tgt)
+                    for path, item in K.record_stores(ctx.index, loop.func,
+                                                      node.ast):
+                        val = N.txt(item)
+                        if val == srv_txt:
+                            rec_server.add(path)
+                        elif val == '%s.placement_expiry' % var:
+                            rec_expiry.add(path)
                 ctx.ob('C03.5', loop.func, rnode,
-                       rec_server is not None and rec_expiry is not None,
+                       bool(rec_server) and bool(rec_expiry),
                        'server and expiry are recorded before the removal '
-                       '(server -> %s, expiry -> %s)' % (rec_server,
-                                                        rec_expiry))
+                       '(server -> %s, expiry -> %s)' % (
+                           sorted(rec_server), sorted(rec_expiry)))
                 calls = [c for n in graph.nodes
                          for c in C.node_calls(n)
                          if K.is_meth(c, 'restore') and rec_server and
-                         K.rtxt(loop.func, K.recv(c)) == rec_server]
+                         K.rtxt(loop.func, K.recv(c)) in rec_server]
                 ok = bool(calls) and all(
                     len(c.args) == 2 and N.txt(c.args[0]) == var and
-                    K.rtxt(loop.func, c.args[1]) == rec_expiry
+                    K.rtxt(loop.func, c.args[1]) in rec_expiry
                     for c in calls)
                 ctx.ob('C03.5', loop.func, calls[0] if calls else None, ok,
                        'the fallback restores exactly the recorded server '
